@@ -306,6 +306,10 @@ def gen_extraction_programs(r, n):
         dests = ["out/x", "out/y", "out/nodir/sub/z"]
         if r.chance(0.4):
             ops.append(f"put out/y {hx(r.randbytes(r.pick([3, 200, 20000])) + b'OLD')}")
+        elif r.chance(0.6):
+            # one destination already IS an extraction of the OTHER entry (a hard link of its content file: "install v1
+            # by hard link, upgrade the same path to v2 by copy"): extracting onto it must not write into that entry
+            ops.append(f"hard_link_hash_unchecked s c0 {sri_tok(algo, d2)} out/y")
         # the content path is a symlink to a file outside the cache that holds the same bytes (what link_to makes,
         # and what a de-duplicating tool leaves): extracting the entry ONTO that very file must leave it alone
         if r.chance(0.25):
